@@ -1,7 +1,7 @@
 // U22 (Kani, BOUNDED): column -> file routing (C15).  Real code: inner_locustdb::subpartition (how the columns of a
 // partition are split into files), the construction of the lookup map in flush_table_buffer (slice) and
 // PartitionMetadata::subpartition_key (how a reader finds the file of a column).
-// Bound: 3 columns, names of one ASCII letter or digit (upper / lower case), sizes and size limit symbolic.
+// Bound: 3 columns of 1 byte, two fixed name sets (mixed case; prefixes of one another), size limit symbolic in 1..=3.
 #![allow(dead_code, unused_imports)]
 #![feature(btree_cursors)]
 use std::collections::BTreeMap;
@@ -18,30 +18,23 @@ include!("routing.rs");
 mod proofs {
     use super::*;
 
-    fn any_name() -> String {
-        let k: u8 = kani::any();
-        kani::assume(k < 6);
-        // names that sort differently by byte order and case-insensitively: "A" < "B" < "a" < "b" (bytes), plus "_" and "0"
-        let c = match k { 0 => 'A', 1 => 'B', 2 => 'a', 3 => 'b', 4 => '_', _ => '0' };
-        let mut s = String::new();
-        s.push(c);
-        s
-    }
-
-    #[kani::proof]
-    #[kani::unwind(6)]
-    fn every_column_is_found_in_its_file() {
-        let names = [any_name(), any_name(), any_name()];
-        kani::assume(names[0] != names[1] && names[0] != names[2] && names[1] != names[2]); // column names are unique
-        let sizes: [u8; 3] = kani::any();
+    // fixed name sets (concrete), every column 1 byte, symbolic size limit in 1..=3: the limit decides the grouping
+    // (one column per file / two + one / all in one file)
+    fn run(names: [&str; 3]) {
         let limit: u8 = kani::any();
-        let cols: Vec<Arc<Column>> = (0..3).map(|i| Arc::new(Column { nm: names[i].clone(), size: sizes[i] as usize })).collect();
+        kani::assume(limit >= 1 && limit <= 3);
+        let cols: Vec<Arc<Column>> = vec![
+            Arc::new(Column { nm: names[0].to_string(), size: 1 }),
+            Arc::new(Column { nm: names[1].to_string(), size: 1 }),
+            Arc::new(Column { nm: names[2].to_string(), size: 1 })];
         let opts = Options { max_partition_size_bytes: limit as u64 };
         let (metadata, files) = subpartition(&opts, cols);
         kani::cover!(files.len() == 3, "vacuity: one column per file reachable");
+        kani::cover!(files.len() == 2, "vacuity: two files reachable");
         kani::cover!(files.len() == 1, "vacuity: single file reachable");
         assert!(metadata.len() == files.len(), "[one-entry-per-file] one metadata entry per file");
-        let total: usize = files.iter().map(|f| f.len()).sum();
+        let mut total = 0;
+        for f in files.iter() { total += f.len(); }
         assert!(total == 3, "[every-column-once] every column lands in exactly one file");
         let lookup = build_lookup(&metadata);
         let pm = PartitionMetadata { subpartitions: metadata, subpartitions_by_last_column: lookup };
@@ -54,6 +47,12 @@ mod proofs {
         // a name that sorts after every stored column is recognised as absent
         assert!(pm.subpartition_key("~").is_none(), "[absent-above-all] a column name above all stored names routes to no file");
     }
+    #[kani::proof]
+    #[kani::unwind(6)]
+    fn mixed_case_names_found() { run(["a", "B", "c"]); }
+    #[kani::proof]
+    #[kani::unwind(6)]
+    fn prefix_names_found() { run(["ab", "a", "abc"]); }
 
     #[kani::proof]
     fn vx_canary() {
